@@ -98,6 +98,7 @@ func explore(p *pool, specs []HarnessSpec, cfg exploreCfg) map[string]*harnessRe
 	type qjob struct {
 		spec   *HarnessSpec
 		prefix []int
+		model  map[string]uint64
 	}
 	var mu sync.Mutex
 	cond := sync.NewCond(&mu)
@@ -107,7 +108,7 @@ func explore(p *pool, specs []HarnessSpec, cfg exploreCfg) map[string]*harnessRe
 	for i := range specs {
 		s := &specs[i]
 		results[s.Func] = newHarnessResult(*s)
-		queue = append(queue, qjob{s, nil})
+		queue = append(queue, qjob{s, nil, nil})
 	}
 	t0 := time.Now()
 	nextID := 0
@@ -152,6 +153,7 @@ func explore(p *pool, specs []HarnessSpec, cfg exploreCfg) map[string]*harnessRe
 					MapOrderExplore: j.spec.MapOrder,
 					LogEvents:       j.spec.LogEvents,
 					Concrete:        cfg.concrete,
+					Model:           j.model,
 				}
 				if w.dead {
 					nw, err := startWorker()
@@ -176,11 +178,11 @@ func explore(p *pool, specs []HarnessSpec, cfg exploreCfg) map[string]*harnessRe
 					hr.EngineErrs = append(hr.EngineErrs, fmt.Sprintf("prefix %v: %s", j.prefix, msg))
 				} else {
 					for _, alt := range r.Res.Alternatives {
-						queue = append(queue, qjob{j.spec, alt})
+						queue = append(queue, qjob{j.spec, alt.Prefix, alt.Model})
 					}
 					hr.absorb(r.Res, cfg)
 					if cfg.verbose {
-						say("  path %s %v -> %s %s (forks %d, %d instr, %.0f ms solver)", j.spec.Func, r.Res.Decisions, r.Res.Outcome, r.Res.Detail, r.Res.Forks, r.Res.Instrs, r.Res.SolverMs)
+						say("  path %s %v -> %s %s (forks %d, %d instr, %.0f ms wall, %.0f ms solver)", j.spec.Func, r.Res.Decisions, r.Res.Outcome, r.Res.Detail, r.Res.Forks, r.Res.Instrs, r.Res.WallMs, r.Res.SolverMs)
 					}
 				}
 				mu.Unlock()
